@@ -692,6 +692,11 @@ func (s *scn) flush() *blockResult {
 		}
 		var br *blockResult
 		var err error
+		ev := ev
+		if r.pol.Synced && !s.inSetup && r.id > 0 && len(results) > 0 && results[0] != nil && results[0].Block != nil {
+			ev = syncedCommit(results[0].Block, ev.LocalList)
+			s.res.Count("fault_block_delivered_as_synced")
+		}
 		if r.pol.Burst > 1 && !s.inSetup && r.id > 0 {
 			r.backlog = append(r.backlog, ev)
 			results = append(results, nil)
